@@ -135,10 +135,16 @@ PROPS.update({
         "Theorem c06_pattern_independent_acceptance (certified automata for pattern lists sharing a constraint list accept it identically); each "
         "pattern compiled alone vs inside the set, a rotated set with renumbering, duplicates, n_patterns/get_pattern.",
         "verified certificates + alone-vs-together / permutation differential", ["c06", "tab06"]),
-    "C07": aut_prop("exploration",
-        "each (pattern, anchor) occurrence found by the independent scan must be reported exactly once under every heuristic (multiset equality); "
-        "the model traversal is compared as exact sequences. No unambiguity theorem yet (cert_unamb of DESIGN.md is not built).",
-        "multiset comparison with an independent occurrence oracle + differential correspondence of the traversal", ["c07"]),
+    "C07": aut_prop("translation_validation",
+        "Strings: Theorems c07_string_at_most_once / c07_string_exactly_once - on every automaton that passes wf_check and the unambiguity "
+        "certificates (slab_ok: a signed labelling with alternatives, checked edge by edge; cert_unamb: two accepting entries of one pattern sit in "
+        "states with contradictory labels; accept_vdet: all transitions into an accepting state deliver the same view of its keys unless their "
+        "labels contradict; empty_scope_closed) the modelled run reports each (pattern, position) at most once, for every host and fuel; with "
+        "the C01/C02 certificates the count is exactly 1 at an occurrence and 0 elsewhere. The certificates are computed (unverified) and checked "
+        "(verified) on the dump of every automaton built, under every heuristic. Matrices and the empty pattern: each (pattern, anchor) found by "
+        "the independent scan must be reported exactly once under every heuristic (multiset equality); the model traversal is compared as exact sequences.",
+        "Coq proof of at-most-once from verified unambiguity certificates (trace of the BFS with distinct pruning keys + signed labelling) evaluated on "
+        "the real automaton + multiset comparison with an independent occurrence oracle + differential correspondence", ["c07"]),
     "C09": aut_prop("translation_validation",
         "wf_check (proved to establish every clause of the property, Theorem c09_wf_check_sound / c09_clauses) is evaluated on the dump of every "
         "automaton built, for all enumerated heuristic answer sequences - all states, not only those a host visits.",
